@@ -328,7 +328,7 @@ struct World {
    const ipr::Identifier* this_ident = nullptr;
 
    // ---- log and models ----
-   std::vector<Rec> log;
+   std::deque<Rec> log;   // deque: references to records stay valid while ops append
    std::unordered_map<const void*, int> rec_of;          // entity pointer -> index of its (first) Rec
    std::map<std::string, Entity> first_by_key;           // unification model: canonical key -> entity first returned
    std::map<std::string, int> key_born;                  // key -> table insertion counter when first seen
